@@ -72,7 +72,8 @@ def _match(code: str | None, sub_of: str | None, wanted: list[str] | None) -> bo
     return code is not None and (code in wanted or (sub_of is not None and sub_of in wanted))
 
 
-def suppress(files: dict[str, str], flags: list[str], target: str, key: list[Any], n_transforms: int = 4) -> dict[str, Any]:
+def suppress(files: dict[str, str], flags: list[str], target: str, key: list[Any], n_transforms: int = 4,
+             all_span_lines: bool = False) -> dict[str, Any]:
     rng = random.Random(common.fingerprint(*key))
     base = basic.check_typeshed(files, [*BASE, *flags], ["main.py"], capture=True)
     out0 = base["out"] + base["err"]
@@ -115,8 +116,21 @@ def suppress(files: dict[str, str], flags: list[str], target: str, key: list[Any
         plans.append(("ignore", L, want))
         if len(plans) >= n_transforms:
             break
+    if all_span_lines:
+        # every line of every origin span, bare and with the matching code (multi-line statements: the ignore may sit
+        # on any physical line of the span)
+        plans = []
+        for L in sorted(set(err_lines) | set(span_lines)):
+            here = sorted({i["code"] for i in mine if L in i["span"] and i["code"]})
+            plans.append(("ignore", L, None))
+            for c in here[:2]:
+                plans.append(("ignore", L, [c]))
     for c in rng.sample(codes_present, min(2, len(codes_present))):
         plans.append(("disable", 0, [c]))
+    # exit status must not depend on the output format
+    rj = basic.check_typeshed(files, [*BASE, *flags, "--output", "json"], ["main.py"], capture=False)
+    if rj["status"] in (0, 1, 2) and not rj.get("crash") and not rj.get("internal") and rj["status"] != base["status"]:
+        res["json_status_mismatch"] = {"text": base["status"], "json": rj["status"], "out": rj["out"][:400]}
     for kind, L, want in plans:
         case: dict[str, Any] = {"kind": kind, "line": L, "codes": want}
         if kind == "ignore":
